@@ -729,8 +729,14 @@ class StrategyBase(Node):
 
         # update data if this value is different or
         # if now has changed - avoid all this if not since it
-        # won't change
-        if newpt or not is_zero(self._value - val) or not is_zero(self._notl_value - notl_val):
+        # won't change. The return computed below also depends on the flows
+        # of the date, so recompute when they moved since the last update too
+        if (
+            newpt
+            or not is_zero(self._value - val)
+            or not is_zero(self._notl_value - notl_val)
+            or not is_zero(self._net_flows - self._all_flows.array[inow])
+        ):
             self._value = val
             self._values.array[inow] = val
 
